@@ -4,7 +4,7 @@ CONSTANTS
   Offsets = {0, 3}
   MaxSpans = 2
   MaxCopy = 0
-  Filters = {"none", "bio", "name"}
+  Filters = {"none", "name"}
 CONSTRAINT CopyBound
 INVARIANT TypeOK
 INVARIANT ViewShape
@@ -12,7 +12,3 @@ INVARIANT ClipRefines
 INVARIANT Restriction
 INVARIANT QueryMonotone
 INVARIANT InsideIsComplete
-PROPERTY RcKeepsReading
-PROPERTY SliceOnlyLoses
-PROPERTY CopyKeepsMeaning
-PROPERTY FeatSliceShowsItself
